@@ -9,6 +9,7 @@ import (
 	"net/http"
 	"runtime/debug"
 	"strings"
+	"time"
 
 	jose "github.com/go-jose/go-jose/v4"
 	"github.com/zitadel/oidc/v3/pkg/client/rp"
@@ -95,6 +96,24 @@ func (r *runner) startCaller(cr *callerRT, ca Caller, reps int) {
 	cr.gateOpenAt = w.gateOpen
 	cr.precancelled = cr.probe.err != nil
 	cr.cancelled = cr.precancelled
+	ctxText := map[bool]string{false: "live", true: "already cancelled"}[cr.precancelled]
+	if !cr.probe.hasDeadline {
+		// the deadline the context reports is fixed now, before anybody can ask for it
+		switch ca.Ctx {
+		case "far":
+			cr.probe.hasDeadline, cr.probe.deadline = true, time.Now().Add(time.Hour)
+			ctxText += ", deadline in 1h"
+		case "near":
+			ms := ca.DeadlineMs
+			if ms <= 0 {
+				ms = nearDeadlinesMs[0]
+			}
+			cr.probe.hasDeadline, cr.probe.deadline = true, time.Now().Add(time.Duration(ms)*time.Millisecond)
+			ctxText += fmt.Sprintf(", deadline in %dms", ms)
+		}
+	} else if cr.expired {
+		ctxText = "over: its deadline is in the past"
+	}
 	cr.cacheAtStart = r.cache
 	cr.failsBefore = w.failSinceOK
 	for _, q := range w.reqs {
@@ -103,13 +122,15 @@ func (r *runner) startCaller(cr *callerRT, ca Caller, reps int) {
 		}
 	}
 	w.running++
-	w.logf("caller %d arrives (%s: key=%s kid=%q alg=%s; context %s)", cr.idx, ca.Kind, ca.Key, ca.Kid, ca.Alg, map[bool]string{false: "live", true: "already cancelled"}[cr.precancelled])
+	w.logf("caller %d arrives (%s: key=%s kid=%q alg=%s; context %s)", cr.idx, ca.Kind, ca.Key, ca.Kid, ca.Alg, ctxText)
 	go func() {
 		var results []callRes
 		for i := 0; i < reps; i++ {
 			results = append(results, r.call(cr, ca))
 		}
+		retAt := time.Now()
 		w.mu.Lock()
+		cr.retAt = retAt
 		cr.results = results
 		cr.returned = true
 		cr.reqInLife = len(w.reqs) - cr.reqAtStart
@@ -244,6 +265,12 @@ func (r *runner) runSched(pi int, ph Phase) {
 	if !hasRelease {
 		events = append(events, Event{Op: "release"})
 	}
+	// a deadline that a context reports also passes: at the latest after everything else
+	for i, ca := range ph.Callers {
+		if ca.Ctx == "near" {
+			events = append(events, Event{Op: "expire", Caller: i})
+		}
+	}
 	var sig strings.Builder
 	for _, e := range events {
 		if r.dead {
@@ -306,84 +333,16 @@ func (r *runner) runSched(pi int, ph Phase) {
 				}
 				r.syncModel()
 			}
-		case "cancel":
+		case "cancel", "expire":
 			cr := w.callers[e.Caller]
+			if e.Op == "expire" && ph.Callers[e.Caller].Ctx != "near" {
+				continue // only a context that has a near deadline can run out
+			}
 			if cr.probe.err != nil {
 				continue
 			}
-			if !cr.started {
-				w.logf("context of caller %d is cancelled before its call", cr.idx)
-				cr.probe.cancelLocked()
-				sig.WriteString("p")
-				continue
-			}
-			if cr.returned {
-				w.logf("context of caller %d is cancelled after it returned", cr.idx)
-				cr.probe.cancelLocked()
-				sig.WriteString("-")
-				continue
-			}
-			// does a blocked download run on this caller's context?
-			var hit *reqRT
-			for _, q := range w.reqs {
-				if q.state == reqBlocked && q.dch == (<-chan struct{})(cr.probe.done) {
-					hit = q
-				}
-			}
-			var victims []*callerRT
-			if hit != nil {
-				for _, o := range w.callers {
-					if o != cr && o.started && !o.returned && o.parked == hit {
-						o.collateral = cr.idx
-						victims = append(victims, o)
-					}
-				}
-			}
-			parkedOthers := 0
-			for _, o := range w.callers {
-				if o != cr && o.started && !o.returned {
-					parkedOthers++
-					switch {
-					case cr.own != nil && cr.own == o.parked && cr.own.state == reqBlocked:
-						o.ownerCancel = true
-					case hit == nil:
-						o.otherCancel = true
-					}
-				}
-			}
-			w.logf("context of caller %d is cancelled while it waits (download on its context: %v, other callers parked: %d)", cr.idx, hit != nil, parkedOthers)
-			cr.cancelled = true
-			cr.probe.cancelLocked()
-			if hit != nil {
-				sig.WriteString(fmt.Sprintf("C%d", len(victims)))
-			} else {
-				sig.WriteString("c")
-			}
-			if parkedOthers > 0 {
-				r.nt = true
-			}
-			if !w.await(func() bool { return cr.returned }) {
-				r.deadline("own-cancel-ignored", fmt.Sprintf("caller %d to return after its own context was cancelled", cr.idx))
+			if !r.endContext(cr, e.Op, &sig) {
 				return
-			}
-			if hit != nil {
-				// the download is aborted by its context: whoever waited for it is woken with its result
-				ok := w.await(func() bool {
-					if hit.state == reqBlocked || !w.stable() {
-						return false
-					}
-					for _, o := range victims {
-						if !o.returned {
-							return false
-						}
-					}
-					return true
-				})
-				if !ok {
-					r.deadline("waiters-not-woken-on-abort", fmt.Sprintf("the callers parked on download #%d to return after it was aborted", hit.id))
-					return
-				}
-				r.syncModel()
 			}
 		case "release":
 			if w.gateOpen {
@@ -416,6 +375,182 @@ func (r *runner) runSched(pi int, ph Phase) {
 		}
 	}
 	r.sum.phaseSig = append(r.sum.phaseSig, sig.String())
+}
+
+// deadlineMargin: how far behind the reported instant the harness ends a context whose deadline passes (a timer-driven
+// context is never early either). Nothing is decided by it.
+const deadlineMargin = 3 * time.Millisecond
+
+// endContext applies the event "the context of caller cr ends": how = "cancel" (explicit cancellation) or "expire" (its
+// deadline passes). w.mu is held (released while waiting). false: the harness deadline fired.
+//
+// For "expire" the harness first lets the instant go by that the context reports as its deadline (wall clock, w.mu
+// released): only then the probe ends. On a key set that does not look at Deadline() nothing happens in the pause; timers
+// that a key set armed from Deadline() have fired when the pause is over, and what they caused is visible at the endpoint.
+func (r *runner) endContext(cr *callerRT, how string, sig *strings.Builder) bool {
+	w := r.w
+	expire := how == "expire"
+	end := func() {
+		if expire {
+			cr.probe.expireLocked()
+		} else {
+			cr.probe.cancelLocked()
+		}
+	}
+	pick := func(cancel, exp string) string {
+		if expire {
+			return exp
+		}
+		return cancel
+	}
+	if !cr.started {
+		if expire {
+			// context.WithDeadline with an instant in the past: over from the start, Err() = DeadlineExceeded
+			cr.probe.hasDeadline, cr.probe.deadline = true, time.Now().Add(-time.Millisecond)
+			cr.expired = true
+			r.res.Label("deadline:in-the-past-at-call-time")
+		}
+		w.logf("context of caller %d %s before its call", cr.idx, pick("is cancelled", "runs out (deadline in the past)"))
+		end()
+		sig.WriteString(pick("p", "e"))
+		return true
+	}
+	// the downloads that wait for the endpoint now, and who waits for them
+	var blockedBefore []*reqRT
+	for _, q := range w.reqs {
+		if q.state == reqBlocked {
+			blockedBefore = append(blockedBefore, q)
+		}
+	}
+	waitingBefore := map[*callerRT]bool{}
+	for _, o := range w.callers {
+		if o.started && !o.returned {
+			waitingBefore[o] = true
+		}
+	}
+	// abortedBehind: a download that was blocked is now aborted although no blocked download ran on cr's own Done channel
+	// (contexts derived from cr's context: timers armed from its deadline, cancellation propagated by a goroutine).
+	// Whoever was parked on it is woken with its result.
+	abortedBehind := func() bool {
+		for _, q := range blockedBefore {
+			if q.state != reqAborted {
+				continue
+			}
+			var victims []*callerRT
+			for _, o := range w.callers {
+				if o != cr && waitingBefore[o] && o.parked == q {
+					if o.collateral < 0 {
+						o.collateral, o.collateralHow = cr.idx, how
+					}
+					victims = append(victims, o)
+				}
+			}
+			ok := w.await(func() bool {
+				for _, o := range victims {
+					if !o.returned {
+						return false
+					}
+				}
+				return w.stable()
+			})
+			if !ok {
+				r.deadline("waiters-not-woken-on-abort", fmt.Sprintf("the callers parked on download #%d to return after it was aborted", q.id))
+				return false
+			}
+			r.syncModel()
+		}
+		return true
+	}
+	if expire && !cr.returned {
+		w.pauseUntil(cr.probe.deadline.Add(deadlineMargin))
+		if r.dead || w.timedOut {
+			return false
+		}
+	}
+	if cr.returned {
+		w.logf("context of caller %d %s after it returned", cr.idx, pick("is cancelled", "runs out"))
+		end()
+		sig.WriteString(pick("-", "_"))
+		if expire {
+			r.res.Label("deadline:passes-after-the-call")
+		}
+		return abortedBehind()
+	}
+	// does a blocked download run on this caller's context?
+	var hit *reqRT
+	for _, q := range w.reqs {
+		if q.state == reqBlocked && q.dch == (<-chan struct{})(cr.probe.done) {
+			hit = q
+		}
+	}
+	var victims []*callerRT
+	if hit != nil {
+		for _, o := range w.callers {
+			if o != cr && o.started && !o.returned && o.parked == hit {
+				o.collateral, o.collateralHow = cr.idx, how
+				victims = append(victims, o)
+			}
+		}
+	}
+	parkedOthers := 0
+	for _, o := range w.callers {
+		if o != cr && o.started && !o.returned {
+			parkedOthers++
+			switch {
+			case cr.own != nil && cr.own == o.parked && cr.own.state == reqBlocked:
+				if expire {
+					o.ownerDeadline = true
+				} else {
+					o.ownerCancel = true
+				}
+			case hit == nil:
+				if expire {
+					o.otherDeadline = true
+				} else {
+					o.otherCancel = true
+				}
+			}
+		}
+	}
+	w.logf("context of caller %d %s while it waits (download on its context: %v, other callers parked: %d)", cr.idx, pick("is cancelled", "runs out: its deadline passed"), hit != nil, parkedOthers)
+	cr.cancelled = true
+	cr.expired = expire
+	end()
+	if hit != nil {
+		sig.WriteString(fmt.Sprintf("%s%d", pick("C", "D"), len(victims)))
+	} else {
+		sig.WriteString(pick("c", "d"))
+	}
+	if expire {
+		r.res.Label("deadline:passes-while-waiting")
+	}
+	if parkedOthers > 0 {
+		r.nt = true
+	}
+	if !w.await(func() bool { return cr.returned }) {
+		r.deadline(pick("own-cancel-ignored", "own-deadline-ignored"), fmt.Sprintf("caller %d to return after its own context %s", cr.idx, pick("was cancelled", "ran out")))
+		return false
+	}
+	if hit != nil {
+		// the download is aborted by its context: whoever waited for it is woken with its result
+		ok := w.await(func() bool {
+			if hit.state == reqBlocked || !w.stable() {
+				return false
+			}
+			for _, o := range victims {
+				if !o.returned {
+					return false
+				}
+			}
+			return true
+		})
+		if !ok {
+			r.deadline("waiters-not-woken-on-abort", fmt.Sprintf("the callers parked on download #%d to return after it was aborted", hit.id))
+			return false
+		}
+		r.syncModel()
+	}
+	return abortedBehind()
 }
 
 // rotation: the document of the phase serves a key that is not in the model cache.
@@ -583,6 +718,7 @@ func (r *runner) judgePhase(pi int, ph Phase, callers []*callerRT, reqs []*reqRT
 		}
 		ca := ph.Callers[i]
 		res.Label("token:" + ca.Kind)
+		res.Label("ctx:" + map[string]string{"": "no-deadline", "far": "deadline-far", "near": "deadline-near"}[ca.Ctx])
 		accC, _ := acceptsFrom(cr.cacheAtStart, ca)
 		accD, whyD := false, "fetch-failed"
 		if dOK {
@@ -614,6 +750,11 @@ func (r *runner) judgePhase(pi int, ph Phase, callers []*callerRT, reqs []*reqRT
 				res.Fail("C13:payload-on-error", "phase %d caller %d: payload returned together with error %v", pi, i, out.err)
 			}
 			verdict, why := r.expect(ph, cr, ca, accC, accD, whyD, ci)
+			if verdict == "must-accept" && ca.Ctx == "near" && !cr.expired && !cr.retAt.Before(cr.probe.deadline) {
+				// t1 of the bracket: the instant the caller's own context reports as its deadline was reached before the call
+				// returned, although the context had not ended yet: the statement's "own context still live" is not settled
+				verdict, why = "grey", "own-deadline-instant-reached-during-call"
+			}
 			r.sum.Verdicts[verdict+":"+why]++
 			res.Label(verdict + ":" + why)
 			if verdict != "grey" {
@@ -636,10 +777,30 @@ func (r *runner) judgePhase(pi int, ph Phase, callers []*callerRT, reqs []*reqRT
 			if cr.otherCancel && !cr.cancelled {
 				res.Label("class:live-while-another-waiter-was-cancelled:" + verdict)
 			}
+			if cr.ownerDeadline && !cr.cancelled {
+				res.Label("class:live-while-the-deadline-of-the-owner-of-the-download-passed:" + verdict)
+			}
+			if cr.otherDeadline && !cr.cancelled {
+				res.Label("class:live-while-the-deadline-of-another-waiter-passed:" + verdict)
+			}
 			switch verdict {
 			case "must-accept":
 				if !accepted {
+					// the download the caller waited for ended with the deadline of a context that is not the caller's own
+					byDeadline := cr.collateral >= 0 && cr.collateralHow == "expire"
+					if q := cr.parked; q != nil && q.state == reqAborted && errors.Is(q.abortErr, context.DeadlineExceeded) && !cr.cancelled {
+						byDeadline = true
+					}
 					switch {
+					case byDeadline:
+						owner := "another caller"
+						if q := cr.parked; q != nil && q.owner >= 0 {
+							owner = fmt.Sprintf("caller %d", q.owner)
+						} else if cr.collateral >= 0 {
+							owner = fmt.Sprintf("caller %d", cr.collateral)
+						}
+						res.Fail("C13:waiter-failed-by-owner-deadline", "phase %d caller %d (%s key=%s kid=%q, own context live) failed with %q: it was parked on the shared download, which was aborted when the deadline of %s's context passed (the download is bound to the deadline of the caller that started it); the endpoint serves its key (%s)",
+							pi, i, ca.Kind, ca.Key, ca.Kid, out.err, owner, D.Kind)
 					case cr.collateral >= 0:
 						res.Fail("C13:waiter-failed-by-owner-cancel", "phase %d caller %d (%s key=%s kid=%q, own context live) failed with %q: it was parked on the shared download, which ran on the context of caller %d and was aborted when that caller's context was cancelled; the endpoint serves its key (%s)",
 							pi, i, ca.Kind, ca.Key, ca.Kid, out.err, cr.collateral, D.Kind)
@@ -707,6 +868,9 @@ func (r *runner) expect(ph Phase, cr *callerRT, ca Caller, accC, accD bool, whyD
 	switch cacheDecision(cr.cacheAtStart, ca, r.c.SkipRemoteCheck) {
 	case fromCacheAccept:
 		if cr.precancelled {
+			if cr.expired {
+				return "grey", "cached-but-own-deadline-passed"
+			}
 			return "grey", "cached-but-own-context-cancelled"
 		}
 		return "must-accept", "cache"
@@ -718,11 +882,17 @@ func (r *runner) expect(ph Phase, cr *callerRT, ca Caller, accC, accD bool, whyD
 	// the token needs a refresh
 	if cr.precancelled {
 		if !cr.gateOpenAt {
+			if cr.expired {
+				return "must-reject", "own-deadline-passed-before-call"
+			}
 			return "must-reject", "own-context-cancelled-before-call"
 		}
 		return "grey", "cancelled-before-call-endpoint-fast"
 	}
 	if cr.cancelled {
+		if cr.expired {
+			return "must-reject", "own-deadline-passed-while-waiting"
+		}
 		return "must-reject", "own-context-cancelled-while-waiting"
 	}
 	if accD {
